@@ -152,6 +152,28 @@ def run(facts, cg):
                                          'small option value) and buffered(0) never polls its inner stream - the command hangs' % (t['loc'], why)})
     if n_buf < 4:
         findings.append({'rule': 'R-CLIFLAGS', 'key': 'R-CLIFLAGS|-|floor-progress-buffered', 'function': '-', 'what': 'expected the buffered() stages of the pipelines, found %d (cannot decide)' % n_buf})
+    # ---- R-DICT-WIRING(metadata-entries): what goes into the metadata map of the dictionary is what the user gave with --metadata-value /
+    # --metadata-file and nothing else.  An entry the tool adds by itself (the name of the input file, "like gzip does") makes the
+    # bytes of the archive depend on how the input was delivered - file or pipe, and under which name.
+    n_meta = 0
+    ADDERS = ('insert', 'entry', 'extend', 'append', 'try_insert', 'or_insert', 'or_insert_with')
+    for b in facts.bodies.values():
+        if b.generated or b.crate != 'bita' or not b.id.startswith('bita::compress_cmd::'):
+            continue
+        for bi, t in b.calls():
+            if 'q' not in t['callee'] or not callee_q(t).startswith('alloc::collections::btree::map::') or callee_q(t).split('::')[-1] not in ADDERS or len(t['args']) < 2:
+                continue
+            key = simplify(T.resolve_env(simplify(T.of_operand(b, t['args'][1]))))
+            n_meta += 1
+            from_opts = any(n_[0] == 'field' and n_[2] in ('metadata_strings', 'metadata_files') for n_ in walk(key))
+            instances.append({'rule': 'R-DICT-WIRING(metadata-entries)', 'function': b.q, 'at': t['loc'], 'key_from_the_options': from_opts})
+            if not from_opts:
+                findings.append({'rule': 'R-DICT-WIRING', 'key': 'R-DICT-WIRING|%s|metadata-extra-entry' % b.q, 'function': b.q,
+                                 'what': 'an entry is added to the metadata of the archive at %s whose key (%s) does not come from --metadata-value / --metadata-file: the archive '
+                                         'records something the user did not ask for, its bytes depend on it' % (t['loc'], show(key)[:50])})
+    if n_meta < 2:
+        findings.append({'rule': 'R-DICT-WIRING', 'key': 'R-DICT-WIRING|-|floor-metadata-entries', 'function': '-',
+                         'what': 'expected the two inserts into the metadata map of compress, found %d (cannot decide)' % n_meta})
     if n_def < 1:
         findings.append({'rule': 'R-CLIFLAGS', 'key': 'R-CLIFLAGS|-|floor-progress', 'function': '-', 'what': 'the definition of --buffered-chunks was not found (cannot decide)'})
     return instances, findings
